@@ -535,6 +535,7 @@ impl<R: Read, TSpec> TagIterator<R, TSpec>
         // (An explicit stack rather than recursion: the nesting depth is controlled by the input.)
         let mut open_masters: Vec<(u64, Vec<TSpec>)> = vec![(tag_id, Vec::new())];
         for child in children {
+            #[cfg(feature = "verif-hooks")] crate::verif::tick();
             match child.as_master() {
                 Some(Master::Start) => open_masters.push((child.get_id(), Vec::new())),
                 Some(Master::End) if open_masters.len() > 1 && open_masters[open_masters.len() - 1].0 == child.get_id() => {
